@@ -31,6 +31,10 @@ pub trait Target {
     /// has closed its reading side (it terminated).
     async fn write(&mut self, kind: Kind, chunk: &[u8]) -> bool;
     async fn local(&mut self, kind: Kind, op: &LocalOp);
+    /// Drop every local handle of the downlink of `kind` (it keeps receiving).
+    async fn drop_handle(&mut self, kind: Kind);
+    /// The consumer of the output channel of the downlink of `kind` goes away.
+    async fn output_fault(&mut self, kind: Kind);
     fn trace_len(&self, kind: Kind) -> usize;
 }
 
@@ -161,6 +165,23 @@ pub async fn drive<T: Target>(t: &mut T, merged: &[(Kind, usize, Step)], n_value
         let kind = *kind;
         match step {
             Step::Barrier => settle().await,
+            // Oracle-only marker.
+            Step::Reconnected => {}
+            Step::DropHandle => {
+                // Either isolated by quiescence or racing with the frames just written / written next.
+                if rng.bool() {
+                    settle().await;
+                }
+                t.drop_handle(kind).await;
+                if rng.bool() {
+                    settle().await;
+                }
+            }
+            Step::OutputFault => {
+                settle().await;
+                t.output_fault(kind).await;
+                settle().await;
+            }
             Step::Local(op) => {
                 settle().await;
                 t.local(kind, op).await;
